@@ -34,6 +34,7 @@ type Config struct {
 	Strategy     string         `json:"strategy"` // random | sticky | pct
 	StickyP      float64        `json:"sticky_p,omitempty"`
 	PCTDepth     int            `json:"pct_depth,omitempty"`
+	PCTHorizon   int            `json:"pct_horizon,omitempty"` // priority change points are drawn from [0, horizon) scheduler steps
 	YieldDensity float64        `json:"yield_density"` // probability that an optional (pre-op) yield is honoured
 	TimeJumpProb float64        `json:"time_jump_prob,omitempty"`
 	Workers      int            `json:"workers"` // NumCPU()-1 seen by the code
@@ -423,8 +424,12 @@ func Run(cfg Config, root func()) Outcome {
 	s := S
 	defer func() { S = nil }()
 	if cfg.Strategy == "pct" {
+		horizon := cfg.PCTHorizon
+		if horizon <= 0 {
+			horizon = 2000
+		}
 		for i := 0; i < cfg.PCTDepth; i++ {
-			s.pctCP[int(s.draw()%uint64(max(1, min(cfg.MaxSteps, 20000))))] = true
+			s.pctCP[int(s.draw()%uint64(horizon))] = true
 		}
 	}
 	rg := &G{id: "0", wake: make(chan struct{})}
